@@ -17,7 +17,7 @@ use crate::engine::Ctx;
 use crate::fdtrack::FdKind;
 use crate::rec_backend::{Outcome, Rec};
 use crate::srv::{fresh_fds, run_stream, Chunk, Res};
-use crate::stream::{chunk_strategy, explain_calls, negotiation_strategy, ChunkSpec, Mutation, Negotiation};
+use crate::stream::{chunk_strategy, explain_calls_fds, negotiation_strategy, ChunkSpec, Mutation, Negotiation};
 
 #[derive(Serialize, Deserialize, Debug, Clone)]
 pub struct StreamCase {
@@ -80,7 +80,21 @@ fn header_valid(b: &[u8]) -> bool {
     crate::refpred::hdr(c, f, s, 44) == Some(true)
 }
 
-fn judge(ctx: &mut Ctx, what: &str, run: &crate::srv::ServerRun, all: &[u8], max_calls: usize) -> Result<(), String> {
+/// (absolute stream offset, count) of every descriptor group the chunks carry (a sentinel group of zero descriptors keeps
+/// the list non-empty so that descriptor counts are judged even when none was sent)
+fn fd_groups_of(chunks: &[Chunk]) -> Vec<(usize, usize)> {
+    let mut off = 0;
+    let mut g = vec![(usize::MAX, 0)];
+    for c in chunks {
+        if !c.fds.is_empty() {
+            g.push((off, c.fds.len()));
+        }
+        off += c.bytes.len();
+    }
+    g
+}
+
+fn judge(ctx: &mut Ctx, what: &str, run: &crate::srv::ServerRun, all: &[u8], max_calls: usize, fd_groups: &[(usize, usize)]) -> Result<(), String> {
     for r in &run.results {
         if let Res::Panic(p) = r {
             return Err(format!("{what}: handle_request panicked: {p}"));
@@ -93,9 +107,9 @@ fn judge(ctx: &mut Ctx, what: &str, run: &crate::srv::ServerRun, all: &[u8], max
     if !run.ended_disconnected && run.results.len() >= max_calls {
         ctx.note_inconclusive(format!("{what}: stream not finished after {max_calls} calls"));
     }
-    if let Err(i) = explain_calls(all, &run.log) {
+    if let Err(i) = explain_calls_fds(all, &run.log, fd_groups) {
         return Err(format!(
-            "{what}: handler invocation #{i} {:?} is not explained by any protocol-valid message in the sent bytes after the previous one (log {:?})",
+            "{what}: handler invocation #{i} {:?} is not explained by any protocol-valid message, carrying exactly the descriptors its request prescribes, in the sent bytes after the previous one (log {:?}; descriptor groups sent (offset, count): {fd_groups:?})",
             run.log[i],
             run.log.iter().map(|c| c.name()).collect::<Vec<_>>()
         ));
@@ -114,6 +128,7 @@ pub fn run_stream_case(ctx: &mut Ctx, c: &StreamCase) -> Result<(), String> {
         }
     }
     let max_calls = all.len() / 12 + 4;
+    let groups = fd_groups_of(&chunks);
     let run = run_stream(rec, chunks, max_calls);
 
     let mut nontrivial = false;
@@ -144,7 +159,7 @@ pub fn run_stream_case(ctx: &mut Ctx, c: &StreamCase) -> Result<(), String> {
         json!({"negotiation": c.neg, "chunks": c.chunks.iter().map(|s| json!({"code": s.code, "mutation": s.mutation, "nfds_sent": s.nfds_sent(), "fd_at": s.fd_at, "tail": s.tail.len()})).collect::<Vec<_>>(),
                "results": run.results.iter().map(|r| format!("{r:?}")).collect::<Vec<_>>(), "handler_calls": run.log.iter().map(|c| c.name()).collect::<Vec<_>>()})
     });
-    judge(ctx, "stream", &run, &all, max_calls)
+    judge(ctx, "stream", &run, &all, max_calls, &groups)
 }
 
 pub fn run_raw_case(ctx: &mut Ctx, c: &RawCase) -> Result<(), String> {
@@ -165,10 +180,11 @@ pub fn run_raw_case(ctx: &mut Ctx, c: &RawCase) -> Result<(), String> {
     let mut rec = Rec::new(c.neg.dev_features, c.neg.dev_pf);
     rec.hold_files = false;
     let max_calls = all.len() / 12 + 4;
+    let groups = fd_groups_of(&chunks);
     let run = run_stream(rec, chunks, max_calls);
     ctx.class("raw_bytes");
     ctx.class_n("handler_invocations", run.log.len() as u64);
-    judge(ctx, "raw", &run, &all, max_calls)
+    judge(ctx, "raw", &run, &all, max_calls, &groups)
 }
 
 pub fn stream_case_strategy() -> impl Strategy<Value = StreamCase> {
